@@ -679,7 +679,7 @@ def gen_C08(rng, tier):
             L.append('q %d ser' % oid)
             L.append('q %d rt %d' % (oid, rng.choice([0, 1, 9])))
             # the same bytes through a reader that hands them out in pieces (BufReader / chained readers do this)
-            L.append('q %d sched %s' % (oid, rng.choice(['c1', 'c3', 'c5,c2', 'c7,c1', 'c%d' % rng.randrange(1, 17)])))
+            L.append('q %d sched %s' % (oid, rng.choice(['c1', 'c3', 'c5,c2', 'c7,c1', 'c%d' % rng.randrange(1, 17), ','.join(['c3'] + ['i'] * 80)])))
             L.append('new %d %s deser %d' % (100 + oid, k, oid))
             L.append('eq %d %d' % (oid, 100 + oid))
             for p in PROBES[k]:
@@ -873,7 +873,8 @@ def gen_C12(rng, tier):
 
 def gen_C13(rng, tier):
     cases = []
-    scheds = ['c1', 'c1,i', 'c2,i,c1,c3', 'i,i,c3', 'c7,c1,i', 'c%d' % rng.randrange(1, 9)]
+    # long bursts of `Interrupted` at one position are still transient: any bounded retry count is a defect
+    scheds = ['c1', 'c1,i', 'c2,i,c1,c3', 'i,i,c3', 'c7,c1,i', 'c%d' % rng.randrange(1, 9), ','.join(['i'] * 70 + ['c5']), ','.join(['c9'] + ['i'] * 1100 + ['c2'])]
     for ci in range(16 if tier == 'quick' else 80):
         L = ['case C13-%d' % ci]
         zoo, kinds = structure_zoo(rng, tier, small=(ci % 2 == 0))
